@@ -5,9 +5,11 @@ Driver commands of property C18 (core Lean only).
     orders  one letter per input: u(nknown) n (unsorted) q(ueryname) c(oordinate); "-" for no input
     less    the custom less given to NewMerger: nil | pos | namedesc | matepos
     links   per input (separated by "/") the merged reference index of each source reference ("3,0,1", "-" = none);
-            "x" when there is no merged header
-    inputs  per input (separated by "/"): how it ends ("e" = io.EOF, "f<n>" = error n) and the records it delivers,
-            ";"-separated, each  <name in hex>:<ref>:<pos>:<mate>:<matepos>   (ref/mate -1 = nil)
+            "x" when the header merge is never reached, "E" when sam.MergeHeaders returns an error
+    inputs  per input (separated by "/") its runs, separated by "+"; a run is how it ends ("e" = io.EOF, "f<n>" =
+            error n) and the records delivered before, ";"-separated, each
+            <name in hex>:<ref>:<pos>:<mate>:<matepos>:<uid>   (ref/mate -1 = nil).  After the error of a run the
+            reader goes on with the next run (record-level error); the end of the last run is returned for ever.
   answer: "<input>.<index>:<ref>:<mate>,…|<eof | err:n | more>|<a>,<b>"  or  "newerr:eof" / "newerr:mismatch"
           (a, b: what the next two calls of Read return after the final error: eof | err:n | rec)
 -/
@@ -31,19 +33,12 @@ def parseRef (s : String) : Option (Option Nat) := do
   let i ← parseInt s
   if i < 0 then some none else some (some i.toNat)
 
-def parseRec (uid : Nat) (s : String) : Option Rec :=
+def parseRec (s : String) : Option Rec :=
   match s.splitOn ":" with
-  | [n, r, p, m, mp] => do
+  | [n, r, p, m, mp, u] => do
     some { name := ← parseHex n, ref := ← parseRef r, pos := ← parseInt p, mate := ← parseRef m,
-           matePos := ← parseInt mp, uid := uid }
+           matePos := ← parseInt mp, uid := ← parseNat u }
   | _ => none
-
-def parseRecs : Nat → List String → Option (List Rec)
-  | _, [] => some []
-  | i, s :: ss => do
-    let r ← parseRec i s
-    let rs ← parseRecs (i + 1) ss
-    some (r :: rs)
 
 def parseTerm (s : String) : Option Term :=
   if s == "e" then some .eof
@@ -51,9 +46,14 @@ def parseTerm (s : String) : Option Term :=
     | 'f' :: ds => do some (.err (← parseNat (String.ofList ds)))
     | _ => none
 
-def parseSrc (s : String) : Option Src :=
+def parseRun (s : String) : Option (List Rec × Term) :=
   match s.splitOn ";" with
-  | t :: rs => do some { rest := ← parseRecs 0 rs, term := ← parseTerm t }
+  | t :: rs => do some (← rs.mapM parseRec, ← parseTerm t)
+  | [] => none
+
+def parseSrc (s : String) : Option Src := do
+  match ← (s.splitOn "+").mapM parseRun with
+  | (rs, t) :: more => some { rest := rs, term := t, later := more }
   | [] => none
 
 def parseLinkList (s : String) : Option (List Nat) :=
@@ -88,11 +88,13 @@ def merge (orders less links inputs : String) : Option String := do
   let custom ← parseLess less
   let sos ← if orders == "-" then some [] else orders.toList.mapM parseOrder
   let srcs ← if inputs == "-" then some [] else (inputs.splitOn "/").mapM parseSrc
-  let ls ← if links == "x" then some [] else (links.splitOn "/").mapM parseLinkList
+  let ls ← if links == "x" || links == "E" then some [] else (links.splitOn "/").mapM parseLinkList
+  let merged : Option LinkFn := if links == "E" then none else some (mkLinkFn ls)
   if sos.length ≠ srcs.length then none else
-  match newMerger custom (mkLinkFn ls) (zipInputs sos srcs) with
+  match newMerger custom merged (zipInputs sos srcs) with
   | .error .noSource => some "newerr:eof"
   | .error .sortOrderMismatch => some "newerr:mismatch"
+  | .error .headerMerge => some "newerr:hdr"
   | .ok m =>
     let (out, fin) := m.readAll scanHeap
     let a := (m.advance scanHeap (m.size + 1)).read scanHeap
